@@ -12,7 +12,8 @@ META = {
                    "(P2) a new shareable connection's reuse() clone is pushed while the caller keeps the original, released exclusive connections return through WhenReady (P3); "
                    "(P10) only a checkout that can own the marker clears it on drop; (P15) every type that can hold a connection has a checked release path and an unpolled checkout "
                    "returns the connection it popped; (C04.1) connect_to uses the pool when one is configured and derives `multiplex` from the request version."
-                   " P8 classifies Pool::checkout by path class (idle hit / dependent / dial) with abstract values of the connector and connection arguments, whatever the number of Checkout::new call sites.",
+                   " P8 classifies Pool::checkout by path class (idle hit / dependent / dial) with abstract values of the connector and connection arguments, whatever the number of Checkout::new call sites."
+                   " As built now: P8 / P9 / P10 / P14 / P15 are the decision tables of pooltable.py (Pool::checkout, PoolInner::push, the pinned drop), P5 is the idle-pop table (idletable.py: the newest open unexpired entry is the one handed out), C04.1's multiplex() is a two-row table.",
     "trusted_base": ["rustc type/borrow checker", "std collections", "tokio oneshot"],
     "assumptions": ["Connector.shareable is hard-wired false today, so ALPN-upgraded connections do not set the marker during the handshake window (noted, not claimed)"],
     "undecided": "the number of dials versus the minimum a history requires (arithmetic over histories)",
